@@ -481,8 +481,15 @@ def run_check(prop, *, proof_modules, theorems, driver_exe, translate=None, corr
         "property_id": prop, "tier": tier, "seed": seed, "level": level, "coverage": cov,
         "assumptions": list(model_notes or []), "wall_s": round(wall, 2), "violations": violations,
     }
-    os.makedirs(os.path.join(VERIF, "evidence"), exist_ok=True)
-    with open(os.path.join(VERIF, "evidence", prop + ".json"), "w") as fh:
+    # evidence/<id>.json is only ever written by a real run against /repo itself; runs against a scratch
+    # worktree (seeded-change experiments) or with the debug flag go to evidence/scratch/ (git-ignored), so a
+    # record measured on a patched tree or without the proofs can never be committed by accident.
+    official = os.path.realpath(REPO) == os.path.realpath("/repo") and not args.no_lean
+    ev_dir = os.path.join(VERIF, "evidence") if official else os.path.join(VERIF, "evidence", "scratch")
+    if not official:
+        ev["coverage"]["info"]["not_official"] = "VERIF_REPO=%s no_lean=%s" % (REPO, args.no_lean)
+    os.makedirs(ev_dir, exist_ok=True)
+    with open(os.path.join(ev_dir, prop + ".json"), "w") as fh:
         json.dump(ev, fh, indent=1, default=str)
     print("%s tier=%s seed=%d proofs=%d/%d corr=%d cases (%d disagree) search=%s failures=%d known=%d wall=%.1fs" % (
         prop, tier, seed, discharged, len(theorems), corr.evaluations, len(corr.disagreements),
